@@ -569,7 +569,11 @@ func pruneTaskGetRetainedStashed(gitscanner *lfs.GitScanner, retainChan chan str
 func pruneTaskGetRetainedIndex(gitscanner *lfs.GitScanner, ref string, workingDir string, retainChan chan string, errorChan chan error, waitg *sync.WaitGroup, sem *semaphore.Weighted) {
 	defer waitg.Done()
 
-	err := gitscanner.ScanIndex(ref, workingDir, func(p *lfs.WrappedPointer, err error) {
+	// What is staged differs from HEAD, so it has not been committed, let
+	// alone pushed: it is kept whatever lfs.fetchexclude says. Do not use
+	// the shared scanner's path filter here.
+	indexScanner := lfs.NewGitScanner(cfg, nil)
+	err := indexScanner.ScanIndex(ref, workingDir, func(p *lfs.WrappedPointer, err error) {
 		if err != nil {
 			errorChan <- err
 		} else {
